@@ -123,7 +123,7 @@ fn login_flow<const L: usize>() {
 }
 
 #[kani::proof]
-#[kani::unwind(200)]
+#[kani::unwind(42)]
 #[kani::stub(core::str::from_utf8, verif_oracle::from_utf8_model)]
 #[kani::stub(crate::srp_internal::calculate_password_verifier, sih::stub_verifier)]
 #[kani::stub(crate::srp_internal::calculate_server_public_key, sih::stub_server_public_key)]
